@@ -30,7 +30,7 @@ ASSUMPTIONS = ['operands: ints, dyadic floats, logicals, blank, numeric and non-
 
 OPS = ['+', '-', '*', '/', '&']
 D0 = datetime.date(1899, 12, 30).toordinal()
-NUM_RE = re.compile(r'[+-]?[0-9]+(\.[0-9]+)?$')
+NUM_RE = re.compile(r'[+-]?([0-9]+\.?[0-9]*|\.[0-9]+)([eE][+-]?[0-9]+)?$')       # digits, optional point and exponent: what int() / float() read
 
 
 def gen(ctx):
@@ -44,6 +44,7 @@ def pool():
     dt = datetime.datetime
     scal = [0, 1, -1, 2, 7, -13, 2 ** 53 + 1, 10 ** 20, 0.5, -0.5, 2.5, 0.25, 1.0, 1024.0, 0.0, True, False, None,
             '12', '-3', '2.5', '0.25', '007', 'abc', '', '1e3x', '9007199254740993', '-123456789012345678901234567890',
+            'room 12', 'x1', 'item 7 of 9', 'total: 5', 'see march notes', '2020-01-15', '2021-03-05 06:00', '12.0', '7.', '1e2',
             ERR('#DIV/0!'), ERR('#N/A'),
             dt(1900, 1, 1), dt(1900, 3, 1), dt(2020, 1, 1), dt(2020, 1, 1, 12), dt(2020, 2, 29, 6), dt(9999, 12, 31)]
     arrs = [[1, 2, 3], [9], [], [1, 2], [[1, 2], [3, 4]], [1, 'a', None], [0.5, True, '2'], [dt(2020, 1, 1), 5], [1, [2, 3]],
@@ -63,10 +64,13 @@ def resolve(v):
                 return float(v)
             except ValueError:
                 pass
-        d = utils.parse_date(v)
-        if isinstance(d, error.XLError):
+        # a date only if dateutil itself (strict, not fuzzy) reads the whole text as one - asked of dateutil directly, not
+        # of the code under test
+        from dateutil.parser import parse as du_parse
+        try:
+            return du_parse(v)
+        except (ValueError, OverflowError):
             return v
-        return d
     if isinstance(v, list):
         return [resolve(x) for x in v]
     return v
@@ -342,7 +346,7 @@ def rand_scalar(rng):
     if k == 4:
         return str(rng.randint(-500, 500)) if rng.random() < 0.5 else '%d.%s' % (rng.randint(0, 99), rng.choice(['5', '25', '125', '0', '75']))
     if k == 5:
-        return rng.choice(['abc', '', 'x1', 'twelve', '--1', '1 2'])
+        return rng.choice(['abc', '', 'x1', 'twelve', '--1', '1 2', 'room 12', 'item 7 of 9', 'see march notes', 'at 5pm sharp', 'no. 3'])
     if k == 6:
         o = rng.randint(datetime.date(1900, 3, 1).toordinal(), datetime.date(9999, 1, 1).toordinal())
         return datetime.datetime.fromordinal(o) + datetime.timedelta(hours=rng.choice([0, 0, 6, 12, 18]))
